@@ -31,7 +31,7 @@ type forcedCase struct {
 
 func runForced(c *core.Case) {
 	fc := &forcedCase{Kind: "forced", Seed: c.Rand.Int63()}
-	fc.Scenario = []string{"I1", "I2", "I3", "I4"}[(c.Index/10)%4]
+	fc.Scenario = []string{"I1", "I2", "I3", "I4", "I5"}[(c.Index/10)%5]
 	fc.Carrier = []string{"iq", "message"}[c.Rand.Intn(2)]
 	fc.N = 1 + c.Rand.Intn(40)
 	fc.Packets = 1 + c.Rand.Intn(2)
@@ -347,6 +347,47 @@ func execForced(c *core.Case, fc *forcedCase) {
 		if r.err != nil || !bytes.Equal(r.buf[:r.n], data[:min(r.n, fc.N)]) || r.n == 0 {
 			c.Violate("ibb:corrupt:receiver", "I2: %d bytes stored, Read returned n=%d err=%v", fc.N, r.n, r.err)
 			outcome = "wrong"
+		}
+	case "I5":
+		// The handler has stored a packet and is parked just before it signals
+		// the reader.  The application closes the stream now, with a write
+		// deadline that has passed already, so that its <close/> cannot go
+		// through and Close returns an error.  The handler continues.  Whatever
+		// the failed Close did to the stream, the serve loop must survive it
+		// (a panic there ends the process) and go on serving.
+		rule := ctl.Park("ibb.data.notify", sid)
+		rp.sendHandled(fc.Carrier, sid, 0, data[:fc.N], false)
+		if !rule.WaitArrived(grace) {
+			c.Notef("I5: handler never reached ibb.data.notify")
+			return
+		}
+		c.Count("forced_I5_reached", 1)
+		conn.SetWriteDeadline(time.Unix(1, 0))
+		var cerr error
+		closed := make(chan struct{})
+		go func() {
+			defer close(closed)
+			c.Guard("ibb.Conn.Close", func() { cerr = conn.Close() })
+		}()
+		select {
+		case <-closed:
+		case <-time.After(grace):
+			// Close may legitimately wait for the handler (locks): go on
+		}
+		rule.Release()
+		select {
+		case <-closed:
+		case <-time.After(hardLimit):
+			c.Inconclusive("I5: Close did not return")
+			return
+		}
+		if cerr != nil {
+			c.Count("forced_I5_close_failed_while_the_handler_was_about_to_signal", 1)
+			outcome = "close-failed"
+		}
+		if !rp.barrier() {
+			c.Violate("ibb:session-ended", "I5: a local Close failed (write deadline passed: %v) while the handler of an incoming packet was about to signal the reader; afterwards the session no longer answers", cerr)
+			outcome = "dead"
 		}
 	}
 	c.Count("forced_scenarios", 1)
